@@ -414,7 +414,7 @@ func hasSkipOrLimit(q *cypher.RegularQuery) bool {
 }
 
 func TestC02Generated(t *testing.T) {
-	evid.Prop(t, checkName, evid.R.N(6000, 15000), genCase, oracle)
+	evid.Prop(t, checkName, evid.R.N(6000, 50000), genCase, oracle)
 	var never []string
 	seenMu.Lock()
 	for _, l := range allLowerings {
